@@ -33,8 +33,13 @@ Fixpoint canon (v : tval) : tval :=
   end.
 
 (* same value up to the order of struct fields and map entries *)
+(* the decoder converts a declared string length to a unary number before it compares it with the input: bytes coming
+   from the implementation are first walked by skip (lengths compared as integers), garbage never reaches the decoder *)
+Definition safe_decode (t : Z) (bs : list Z) : option tval :=
+  match skip_go t bs with Some [] => decode_all t bs | _ => None end.
+
 Definition sem_eq_bytes (t : Z) (a b : list Z) : bool :=
-  match decode_all t a, decode_all t b with
+  match decode_all t a, safe_decode t b with
   | Some x, Some y => wf x && tval_eqb (canon x) (canon y)
   | _, _ => false
   end.
@@ -165,7 +170,7 @@ Definition spec_step (defaults ns : bool) (idx : Z) (s : sstate) (o : cop) : ver
   match o with
   | CPool _ => (VOk, {| s_dom := None; s_drift := s_drift s |})
   | CLoad rec t bs st =>
-    match decode_all t bs with
+    match safe_decode t bs with
     | None => (VSkip, s)
     | Some v =>
       if negb (wf v && dom_ok_val v && is_container t) then (VSkip, s) else
@@ -214,7 +219,7 @@ Definition spec_step (defaults ns : bool) (idx : Z) (s : sstate) (o : cop) : ver
         end
       | CSet p k0 t vb st ex cap =>
         let k := pkey_of_step k0 in
-        match decode_all t vb, dom_at (map pkey_of_step p) d with
+        match safe_decode t vb, dom_at (map pkey_of_step p) d with
         | Some x, Some target =>
           if negb (wf x && bytes_eqb (encode x) vb && dom_ok_val x) then (VSkip, s) else
           if negb (kind_fits target k) then (expect (code + 8) (st =? 2) [FZ 2], s) else
